@@ -52,19 +52,21 @@ def main():
         mods |= {x.value.split(":")[0] for x in ast.walk(tree) if isinstance(x, ast.Constant) and isinstance(x.value, str) and ":" in x.value and x.value.split(":")[0] in repo.modules}
         # module-name constants imported from sibling qv modules (e.g. SER from qv.domains.codec)
         for imp in ast.walk(tree):
-            if isinstance(imp, ast.ImportFrom) and imp.module and imp.level:
-                cand = os.path.join(ROOT, "qv", *(imp.module.split("."))) + ".py"
-                if imp.level == 1:
-                    cand = os.path.join(rules_dir, imp.module.replace(".", os.sep) + ".py")
-                elif imp.level == 2:
-                    cand = os.path.join(ROOT, "qv", imp.module.replace(".", os.sep) + ".py")
+            if not (isinstance(imp, ast.ImportFrom) and imp.level):
+                continue
+            base = rules_dir if imp.level == 1 else os.path.join(ROOT, "qv")
+            cands = []
+            if imp.module:
+                cands.append(os.path.join(base, imp.module.replace(".", os.sep) + ".py"))
+                cands += [os.path.join(base, imp.module.replace(".", os.sep), al.name + ".py") for al in imp.names]
+            else:  # from . import c13
+                cands += [os.path.join(base, al.name + ".py") for al in imp.names]
+            for cand in cands:
                 if os.path.exists(cand):
                     t2 = ast.parse(open(cand).read())
                     mods |= {x.value for x in ast.walk(t2) if isinstance(x, ast.Constant) and isinstance(x.value, str) and x.value in repo.modules}
-                    idents_extra = set()
                     for s_ in matching_strings(t2):
-                        idents_extra |= set(IDENT.findall(s_))
-                    idents |= idents_extra
+                        idents |= set(IDENT.findall(s_))
         entry = {}
         for (mname, q), loc in funcs.items():
             if mname not in mods:
